@@ -95,6 +95,12 @@ def cases(tier, seed):
                 for dts in (None, dt):
                     out.append({'dt': dt, 'dts': dts, 'T': T, 'cutoff': 0.0, 'cut': 'zero', 'model': model, 'solver': solver,
                                 'method': None, 'backend': 'default', 'vectorize': False, 'decimal': True})
+    # decimal sampling ratios (0.3/0.1 = 2.9999999999999996) on every backend's own fixed-step solvers
+    for backend, solvers_b in (('default', ('euler', 'heun')), ('torch', ('euler',)), ('jax', ('euler', 'heun'))):
+        for dt, dts, T in ((0.1, 0.3, 1.2), (0.1, 0.7, 2.1), (1e-2, 6e-2, 0.3)):
+            for solver in solvers_b:
+                out.append({'dt': dt, 'dts': dts, 'T': T, 'cutoff': 0.0, 'cut': 'zero', 'model': 'rot', 'solver': solver,
+                            'method': None, 'backend': backend, 'vectorize': backend != 'default', 'decimal': True})
     # adaptive solvers against closed forms (incl. the time-dependent model)
     for model in ('decay', 'rot', 'edge', 'tdep', 'inp'):
         for method in ('RK45', 'DOP853', 'Radau') if tier != 'quick' else ('RK45', 'DOP853'):
